@@ -1,0 +1,100 @@
+//go:build verif
+// +build verif
+
+package localstore
+
+import (
+	"github.com/gauss-project/aurorafs/pkg/shed"
+)
+
+// VerifSetNow replaces the package clock and returns the previous one.
+func VerifSetNow(f func() int64) func() int64 {
+	old := now
+	now = f
+	return old
+}
+
+// VerifDumpT is a plain copy of the local store indexes.
+type VerifDumpT struct {
+	Retrieval []VerifItem // Address, BinID, StoreTimestamp, Data
+	Access    []VerifItem // Address, AccessTimestamp
+	GC        []VerifItem // AccessTimestamp, BinID, Address, GCounter
+	Pin       []VerifItem // Address, PinCounter
+	GCSize    uint64
+}
+
+// VerifItem mirrors the shed.Item fields the local store uses.
+type VerifItem struct {
+	Address         []byte
+	Data            []byte
+	AccessTimestamp int64
+	StoreTimestamp  int64
+	BinID           uint64
+	PinCounter      uint64
+	GCounter        uint64
+}
+
+func verifItems(idx shed.Index) (out []VerifItem, err error) {
+	err = idx.Iterate(func(i shed.Item) (bool, error) {
+		out = append(out, VerifItem{
+			Address:         append([]byte(nil), i.Address...),
+			Data:            append([]byte(nil), i.Data...),
+			AccessTimestamp: i.AccessTimestamp,
+			StoreTimestamp:  i.StoreTimestamp,
+			BinID:           i.BinID,
+			PinCounter:      i.PinCounter,
+			GCounter:        i.GCounter,
+		})
+		return false, nil
+	}, nil)
+	return out, err
+}
+
+// VerifDump reads all indexes and the persisted gc size.
+func (db *DB) VerifDump() (d VerifDumpT, err error) {
+	db.batchMu.Lock()
+	defer db.batchMu.Unlock()
+	if d.Retrieval, err = verifItems(db.retrievalDataIndex); err != nil {
+		return d, err
+	}
+	if d.Access, err = verifItems(db.retrievalAccessIndex); err != nil {
+		return d, err
+	}
+	if d.GC, err = verifItems(db.gcIndex); err != nil {
+		return d, err
+	}
+	if d.Pin, err = verifItems(db.pinIndex); err != nil {
+		return d, err
+	}
+	d.GCSize, err = db.gcSize.Get()
+	return d, err
+}
+
+// VerifCollectGarbage runs the real collectGarbage synchronously on the calling
+// goroutine with the capacity temporarily set to capacity.
+func (db *DB) VerifCollectGarbage(capacity uint64) (collected uint64, done bool, err error) {
+	db.batchMu.Lock()
+	old := db.capacity
+	db.capacity = capacity
+	db.batchMu.Unlock()
+	defer func() {
+		db.batchMu.Lock()
+		db.capacity = old
+		db.batchMu.Unlock()
+	}()
+	return db.collectGarbage()
+}
+
+// VerifSetGCHooks sets the package's existing test hooks: iterDone is called by a
+// collection run after it has chosen its candidates (no lock held), done after a
+// run of the background worker.
+func VerifSetGCHooks(iterDone func(), done func(collected uint64)) {
+	testHookGCIteratorDone = iterDone
+	testHookCollectGarbage = done
+}
+
+// VerifWaitUpdateGC waits for all access-time update goroutines started by Get.
+func (db *DB) VerifWaitUpdateGC() { db.updateGCWG.Wait() }
+
+// VerifCapacity returns the configured capacity.
+func (db *DB) VerifCapacity() uint64 { return db.capacity }
